@@ -204,6 +204,24 @@ func (f *family) runBatch(peg string, cases []*gcase, vs []variant, bno int) {
 	f.genFail += cp.GenFailed
 	f.compFail += cp.CompFailed
 	for _, cs := range cases {
+		// a grammar whose parser builds under one option set but not under another: the options changed more than speed
+		built, failed := "", ""
+		var failedJob *corpus.Job
+		for _, v := range vs {
+			if j := cp.Job(pkgName(cs.id, v)); j.Compiled {
+				built = v.name
+			} else {
+				failed, failedJob = v.name, j
+			}
+		}
+		if built != "" && failed != "" {
+			why := failedJob.CompErr
+			if failedJob.GenExit != 0 || len(failedJob.GenOut) == 0 {
+				why = fmt.Sprintf("peg exit %d: %s", failedJob.GenExit, failedJob.GenStderr)
+			}
+			f.c.run.Violate("build:"+failed+":"+report.Hash(failedJob.Text), fmt.Sprintf("the parser for this grammar builds with options '%s' but not with '%s': %s", built, failed, firstLine(strings.TrimSpace(why))),
+				map[string]any{"grammar": failedJob.Text, "options": failedJob.Opts, "error": why})
+		}
 		for _, v := range vs {
 			j := cp.Job(pkgName(cs.id, v))
 			if f.onJob != nil {
